@@ -34,46 +34,22 @@ func (s stage) String() string {
 	return [...]string{"parse", "analyze", "compile", "validate", "instantiate", "ok"}[s]
 }
 
-type built struct {
-	stage stage  // first stage that failed, or stOK
-	diag  string // diagnostics / error text of the failing stage
+// hostEnv is one wazero runtime with the host modules the Arc runtime binds
+// (core/pkg/service/arc/runtime/task.go: time, channels, stateful, series, strings, math,
+// errors). Binding them costs ~100 host-function trampolines (mmap'ed code) per runtime,
+// which serialises the whole process on the kernel's mm lock when done per program, so a
+// worker keeps one environment and instantiates each compiled program into it as a
+// separately named guest module. Stateful variables are kept apart by giving every call
+// sequence a fresh node key.
+type hostEnv struct {
 	rt    wazero.Runtime
-	mod   api.Module
 	state *stateful.Host
+	seq   int
 }
 
-func (b *built) Close(ctx context.Context) {
-	if b.rt != nil {
-		_ = b.rt.Close(ctx)
-	}
-}
-
-// build runs the production pipeline text.Parse -> text.Analyze -> compiler.Compile ->
-// wazero CompileModule -> Instantiate, binding the same host modules the Arc runtime binds
-// (core/pkg/service/arc/runtime/task.go).
-func build(ctx context.Context, src string, interp bool) *built {
-	b := &built{}
-	parsed, diag := text.Parse(text.Text{Raw: src})
-	if diag != nil && !diag.Ok() {
-		b.stage, b.diag = stParse, diag.String()
-		return b
-	}
-	inter, diag := text.Analyze(ctx, parsed, arc.NewRoot(nil))
-	if diag != nil && !diag.Ok() {
-		b.stage, b.diag = stAnalyze, diag.String()
-		return b
-	}
-	out, err := compiler.Compile(ctx, inter)
-	if err != nil {
-		b.stage, b.diag = stCompile, err.Error()
-		return b
-	}
+func newHostEnv(ctx context.Context) *hostEnv {
 	cfg := wazero.NewRuntimeConfigCompiler().WithCloseOnContextDone(true)
-	if interp {
-		cfg = wazero.NewRuntimeConfigInterpreter()
-	}
 	rt := wazero.NewRuntimeWithConfig(ctx, cfg)
-	b.rt = rt
 	stringsState := stlstrings.NewProgramState()
 	seriesState := series.NewProgramState()
 	channelState := stlchannels.NewProgramState(nil)
@@ -100,13 +76,55 @@ func build(ctx context.Context, src string, interp bool) *built {
 	if herr != nil {
 		panic(fmt.Sprintf("host module binding failed: %v", herr))
 	}
-	b.state = st
-	cm, err := rt.CompileModule(ctx, out.WASM)
+	return &hostEnv{rt: rt, state: st}
+}
+
+func (e *hostEnv) Close(ctx context.Context) { _ = e.rt.Close(ctx) }
+
+type built struct {
+	stage stage  // first stage that failed, or stOK
+	diag  string // diagnostics / error text of the failing stage
+	cm    wazero.CompiledModule
+	mod   api.Module
+	state *stateful.Host
+}
+
+func (b *built) Close(ctx context.Context) {
+	if b.mod != nil {
+		_ = b.mod.Close(ctx)
+	}
+	if b.cm != nil {
+		_ = b.cm.Close(ctx)
+	}
+}
+
+// build runs the production pipeline text.Parse -> text.Analyze -> compiler.Compile ->
+// wazero CompileModule -> InstantiateModule.
+func build(ctx context.Context, env *hostEnv, src string) *built {
+	b := &built{state: env.state}
+	parsed, diag := text.Parse(text.Text{Raw: src})
+	if diag != nil && !diag.Ok() {
+		b.stage, b.diag = stParse, diag.String()
+		return b
+	}
+	inter, diag := text.Analyze(ctx, parsed, arc.NewRoot(nil))
+	if diag != nil && !diag.Ok() {
+		b.stage, b.diag = stAnalyze, diag.String()
+		return b
+	}
+	out, err := compiler.Compile(ctx, inter)
+	if err != nil {
+		b.stage, b.diag = stCompile, err.Error()
+		return b
+	}
+	cm, err := env.rt.CompileModule(ctx, out.WASM)
 	if err != nil {
 		b.stage, b.diag = stValidate, err.Error()
 		return b
 	}
-	mod, err := rt.InstantiateModule(ctx, cm, wazero.NewModuleConfig().WithName("guest"))
+	b.cm = cm
+	env.seq++
+	mod, err := env.rt.InstantiateModule(ctx, cm, wazero.NewModuleConfig().WithName(fmt.Sprintf("guest%d", env.seq)))
 	if err != nil {
 		b.stage, b.diag = stInstantiate, err.Error()
 		return b
